@@ -199,7 +199,116 @@ def gen(rng, tier):
             for variant in ("chk", "unc"):
                 xs = [rng.normal() for _ in range(n)]
                 add("n<2(model-only)", "interp %s %s %s %s %s" % (variant, mode, vec(xs), vec(xs), vec([rng.normal() for _ in range(rng.randint(0, 3))])))
+    strata(rng.fork("strata"), add, quick)
     return lines, cover
+
+
+# ------------------------------------------------------------------------------------------ generic strata
+SIZE_BOUNDARIES = [2, 3, 4, 5, 7, 8, 9, 15, 16, 17, 18, 31, 32, 33, 34, 35, 40, 47, 48, 49, 63, 64, 65, 66, 96, 97, 127, 128, 129, 130, 199, 200]
+FILL_SPECIALS = [0.0, -0.0, 1.0, -1.0, 0.5, 1e300, -1e300, 5e-324, float("inf"), float("-inf"), float("nan"), 1.0 / 3.0]
+
+
+def bad_reciprocal_widths(rng, m):
+    """widths w with fl(w * fl(1/w)) != 1 (49, 3.7, 1.9, ...): a reciprocal-multiply ratio is not 1 at the right knot"""
+    out = [w for w in (49.0, 3.7, 1.9, 41.0, 47.0, 55.0, 0.1 * 37, 98.0, 12.25) if w * (1.0 / w) != 1.0]
+    while len(out) < m:
+        w = rng.choice([float(rng.randint(3, 200)), rng.uniform(1.0, 10.0), rng.loguniform(1e-3, 1e3)])
+        if w * (1.0 / w) != 1.0:
+            out.append(w)
+    return out
+
+
+def strata(rng, add, quick):
+    """Deterministic boundary strata (tools/GENERIC_STRATA.md)."""
+    up = lambda v: math.nextafter(v, math.inf)
+    dn = lambda v: math.nextafter(v, -math.inf)
+    modes = lambda: ["extrap", "panic", "fill %s %s" % (f2h(rng.choice(FILL_SPECIALS)), f2h(rng.choice(FILL_SPECIALS)))]
+    for n in SIZE_BOUNDARIES:
+        for rep in range(1 if quick else 4):
+            xs = knots(rng, n)
+            ys = ordinates(rng, n)
+            L, P, A, Bk = xs[-1], xs[-2], xs[0], xs[1]
+            last = [L, P + (L - P) / 2, dn(L), up(P), P, P + (L - P) * rng.random()]
+            first = [A, A + (Bk - A) / 2, up(A), dn(Bk), Bk]
+            far_r, far_l = L + (L - A) * rng.loguniform(1e-3, 10), A - (L - A) * rng.loguniform(1e-3, 10)
+            # an out-of-range target immediately followed by one in the last segment / at the last knot, and back
+            seq = [up(L), last[1], dn(A), L, far_r, dn(L), far_l, first[1], up(L), up(P), A, far_r, last[5], L]
+            l, r = rng.choice(FILL_SPECIALS), rng.choice(FILL_SPECIALS)
+            fillm = "fill %s %s" % (f2h(l), f2h(r))
+            for variant in ("chk", "unc"):
+                add("seq_out_then_last_segment", "interp %s extrap %s %s %s" % (variant, vec(xs), vec(ys), vec(seq)))
+                add("seq_out_then_last_segment", "interp %s %s %s %s %s" % (variant, fillm, vec(xs), vec(ys), vec(seq)))
+                add("last_segment_panic_mode", "interp %s panic %s %s %s" % (variant, vec(xs), vec(ys), vec(last + first + last)))
+                add("last_knot_plus_ulp", "interp %s panic %s %s %s" % (variant, vec(xs), vec(ys), vec([up(L)])))
+                add("last_knot_plus_ulp", "interp %s panic %s %s %s" % (variant, vec(xs), vec(ys), vec([last[1], L, up(L)])))
+                add("last_knot_plus_ulp", "interp %s %s %s %s %s" % (variant, fillm, vec(xs), vec(ys), vec([up(L)])))
+                add("last_knot_plus_ulp", "interp %s %s %s %s %s" % (variant, fillm, vec(xs), vec(ys), vec([up(L), L, dn(L), up(L), last[1]])))
+                add("first_knot_minus_ulp", "interp %s panic %s %s %s" % (variant, vec(xs), vec(ys), vec([dn(A)])))
+                add("first_knot_minus_ulp", "interp %s %s %s %s %s" % (variant, fillm, vec(xs), vec(ys), vec([dn(A), A, up(A), dn(A), first[1]])))
+            # the only descent sits at a block boundary b-1 | b
+            for b in (4, 8, 16, 32, 48, 64, 96, 128, 192):
+                if b < n:
+                    for kind in (0, 1):
+                        bad = list(xs)
+                        bad[b] = dn(bad[b - 1]) if kind == 0 else bad[b - 1] - (bad[b - 1] - bad[b - 2]) * rng.uniform(0.1, 0.9) if b >= 2 else dn(bad[b - 1])
+                        add("descent_at_block_boundary", "interp chk %s %s %s %s" % (rng.choice(modes()), vec(bad), vec(ys), vec(last[:2] + first[:2])))
+            if n > 2:       # ... and at the very last / very first pair
+                bad = list(xs); bad[-1] = dn(bad[-2])
+                add("descent_at_last_pair", "interp chk %s %s %s %s" % (rng.choice(modes()), vec(bad), vec(ys), vec(first[:2])))
+                bad = list(xs); bad[1] = dn(bad[0])
+                add("descent_at_first_pair", "interp chk %s %s %s %s" % (rng.choice(modes()), vec(bad), vec(ys), vec(last[:2])))
+            # number of targets: 0, 1 and block sizes
+            for m in ([0, 1, 2, 31, 32, 33, 64, 65] if rep == 0 else [0, 1]):
+                ts = inside_targets(rng, xs, m)
+                add("target_count_boundary", "interp %s %s %s %s %s" % (rng.choice(["chk", "unc"]), rng.choice(modes()), vec(xs), vec(ys), vec(ts)))
+    for m in (1024, 1025, 2048):
+        xs = knots(rng, 33); ys = ordinates(rng, 33)
+        add("target_count_boundary", "interp chk extrap %s %s %s" % (vec(xs), vec(ys), vec(inside_targets(rng, xs, m - 4) + outside_targets(rng, xs, 4))))
+    # segment widths w with w * (1/w) != 1, exactly representable as the difference of the two knots
+    ws = bad_reciprocal_widths(rng, 14 if quick else 60)
+    for w in ws:
+        for n in (2, 3, 5, 33, 34, 40):
+            if quick and n not in (2, 33) and not rng.chance(0.3):
+                continue
+            xs = [float(i - (n - 2)) for i in range(n - 1)] + [w]          # ..., -1, 0, w : last width is exactly w
+            if rng.chance(0.5) and n > 2:
+                xs = [-w * (n - 2 - i) for i in range(n - 1)] + [w]        # every width ~ w
+                if not all(b > a for a, b in zip(xs, xs[1:])):
+                    continue
+            ys = ordinates(rng, n)
+            ts = [w, 0.0, w / 2, dn(w), up(0.0)] + xs + [a + (b - a) / 2 for a, b in zip(xs, xs[1:])]
+            for variant in ("chk", "unc"):
+                add("width_times_reciprocal", "interp %s %s %s %s %s" % (variant, rng.choice(["extrap", "panic", "fill 0000000000000000 3ff0000000000000"]), vec(xs), vec(ys), vec(ts)))
+    # exact special values: integer / half-integer grids, zero and minus zero as knot and target, flat and zero ordinates
+    for n in (2, 3, 8, 9, 33):
+        xs = [float(i) for i in range(n)]
+        for ys in ([float(i * i) for i in range(n)], [1.0] * n, [0.0] * n, [(-1.0) ** i for i in range(n)], [1.0 / 3.0 * i for i in range(n)]):
+            ts = [i / 2.0 for i in range(-2, 2 * n + 1)] + [-0.0, 1.0 / 3.0, 2.0 / 3.0, float(n - 1), up(float(n - 1)), dn(0.0)]
+            for mode in ("extrap", "fill %s %s" % (f2h(-0.0), f2h(float("inf")))):
+                add("integer_grid", "interp %s %s %s %s %s" % (rng.choice(["chk", "unc"]), mode, vec(xs), vec(ys), vec(ts)))
+        xs0 = [-0.0] + [float(i) for i in range(1, n)]
+        add("minus_zero_knot", "interp chk panic %s %s %s" % (vec(xs0), vec([float(i + 1) for i in range(n)]), vec([0.0, -0.0, 0.5, float(n - 1)])))
+        xp = [2.0 ** (i - n // 2) for i in range(n)]                      # powers of two and their neighbours
+        tp = [v for q in xp for v in (q, up(q), dn(q))]
+        tp = [min(max(v, xp[0]), xp[-1]) for v in tp]
+        add("power_of_two_knots", "interp unc panic %s %s %s" % (vec(xp), vec(ordinates(rng, n)), vec(tp)))
+    # extreme scale: ordinates (and fills) times 2^k scale the result exactly; abscissae and targets times 2^k leave it unchanged
+    for _ in range(6 if quick else 60):
+        n = rng.choice([2, 3, 9, 33, 40])
+        xs = knots(rng, n)
+        ys = [rng.choice([-1, 1]) * rng.loguniform(1e-3, 1e6) for _ in range(n)]
+        ts = inside_targets(rng, xs, 12) + xs[-2:] + outside_targets(rng, xs, 6)
+        l, r = rng.normal(), rng.normal() * 100
+        for mode in ("extrap", "fill"):
+            for k in (0, 500, -500, 1):
+                f = 2.0 ** k
+                ms = mode if mode == "extrap" else "fill %s %s" % (f2h(l * f), f2h(r * f))
+                add("scale_ordinates", "interp chk %s %s %s %s" % (ms, vec(xs), vec([v * f for v in ys]), vec(ts)))
+            ms = mode if mode == "extrap" else "fill %s %s" % (f2h(l), f2h(r))
+            for k in (400, -400, 3):
+                f = 2.0 ** k
+                add("scale_abscissae", "interp chk %s %s %s %s" % (ms, vec([v * f for v in xs]), vec(ys), vec([v * f for v in ts])))
+
 
 
 def parse(line):
@@ -236,8 +345,54 @@ def finite(v):
     return v == v and not math.isinf(v)
 
 
+def mant(vs):
+    return tuple(math.frexp(v)[0] for v in vs)
+
+
+def expo(vs):
+    for v in vs:
+        if v != 0.0:
+            return math.frexp(v)[1]
+    return 0
+
+
+def scale_checks(lines, impl, fails):
+    """Exact scale laws (no tolerance): y, fills -> 2^k y, 2^k fills gives 2^k results; x, t -> 2^k x, 2^k t gives the same
+    results.  Lines are grouped by everything except the power-of-two scale; groups only form for the scale strata."""
+    gy, gx = {}, {}
+    for i, (l, rep) in enumerate(zip(lines, impl)):
+        st, toks = parse_reply(rep)
+        if st != "ok" or " nan" in l:
+            continue
+        variant, mode, fill, xs, ys, ts = parse(l)
+        if len(xs) < 2 or len(xs) != len(ys) or not all(finite(v) for v in xs + ys + ts) or not all(b > a for a, b in zip(xs, xs[1:])):
+            continue
+        fl = [h2f(v) for v in fill] if fill else []
+        if not all(finite(v) for v in fl):
+            continue
+        out = [h2f(v) for v in toks[1:]]
+        gy.setdefault((variant, mode, tuple(xs), tuple(ts), mant(ys + fl)), []).append((i, expo(ys + fl), out))
+        gx.setdefault((variant, mode, tuple(fill or ()), tuple(ys), mant(xs + ts)), []).append((i, expo(xs + ts), out))
+    for groups, what in ((gy, "ordinates"), (gx, "abscissae")):
+        for key, mem in groups.items():
+            if len(mem) < 2:
+                continue
+            i0, e0, o0 = mem[0]
+            for i1, e1, o1 in mem[1:]:
+                k = e1 - e0 if what == "ordinates" else 0
+                for a, b in zip(o0, o1):
+                    want = math.ldexp(a, k)
+                    if not finite(a) or not finite(b) or (a != 0 and abs(a) < 1e-200):
+                        continue
+                    if b != want:
+                        fails.append(Failure(i1, "scale:" + what, "scaling the %s by 2^%d: result %r, expected exactly %r (unscaled request is line %d)" % (
+                            what, e1 - e0, b, want, i0), f2h(want)))
+                        break
+
+
 def oracle(lines, impl):
     fails = []
+    scale_checks(lines, impl, fails)
     for i, (l, rep) in enumerate(zip(lines, impl)):
         st, toks = parse_reply(rep)
         if st == "skip":
